@@ -167,6 +167,21 @@ def r6_symmetric_fixups(idx, r):
                     r.violate(f"{c.name}.{meth}:one-sided-test:{t[:50]}", f, f"`{t}` looks at one side only", node=tst.test)
     if n < 1:
         raise AnalysisError("no per-nuclide fix-up found in metadata merges")
+    # "use the first one": a datum taken from whichever library brings it first must treat a library that brings None (a gamma
+    # library has no neutron velocity) as not bringing it - a test for the mere existence of the private attribute is satisfied
+    # by that None, after which the real value of a later library is ignored: the result depends on merge order
+    xl = idx.module("armi.nuclearDataIO.xsLibraries")
+    for f in xl.all_funcs():
+        for g in [x for x in walk_local(f.node) if isinstance(x, ast.If)]:
+            calls = [c for c in ast.walk(g.test) if isinstance(c, ast.Call) and dotted(c.func) == "hasattr" and len(c.args) == 2 and isinstance(c.args[1], ast.Constant)]
+            if not calls:
+                continue
+            priv = calls[0].args[1].value
+            takes = [x for x in ast.walk(ast.Module(body=g.body + g.orelse, type_ignores=[])) if isinstance(x, ast.Assign) and isinstance(x.targets[0], ast.Attribute)
+                     and x.targets[0].attr == priv.lstrip("_") and isinstance(x.value, ast.Attribute) and dotted(x.value.value) not in (None, "self")]
+            for tk in takes:
+                r.violate(f"{f.qualname}:first-wins:{priv}", f, f"`{norm(g.test)}` decides whether `{norm(tk)}` runs by the EXISTENCE of `{priv}`; a library merged earlier that carries None for it "
+                          "(gamma-only libraries) makes the attribute exist, so the value of every later library is dropped: the merged library differs with merge order", node=g.test)
 
 
 def _macro_law(names=None):
